@@ -1038,7 +1038,7 @@ class PlainQuantity(Generic[MagnitudeT], PrettyIPython, SharedRegistryObject):
         if is_duck_array_type(type(self._magnitude)):
             return self._imul_div(other, operator.itruediv)
 
-        return self._mul_div(other, operator.truediv)
+        return self.__truediv__(other)
 
     def __truediv__(self, other):
         if isinstance(self.m, int) or isinstance(getattr(other, "m", None), int):
@@ -1061,7 +1061,12 @@ class PlainQuantity(Generic[MagnitudeT], PrettyIPython, SharedRegistryObject):
         elif no_offset_units_self == len(self._units) == 1:
             self = self.to_root_units()
 
-        return self.__class__(other_magnitude / self._magnitude, 1 / self._units)
+        if isinstance(other_magnitude, int) or isinstance(self._magnitude, int):
+            magnitude = self._truedivide_cast_int(other_magnitude, self._magnitude)
+        else:
+            magnitude = other_magnitude / self._magnitude
+
+        return self.__class__(magnitude, 1 / self._units)
 
     __div__ = __truediv__
     __rdiv__ = __rtruediv__
